@@ -197,6 +197,10 @@ static void poll_cb(uv_fs_t* req) {
   if (!uv_is_active((uv_handle_t*)handle) || uv__is_closing(handle))
     goto out;
 
+  /* The handle was stopped and started again while the stat was in flight. */
+  if (handle->poll_ctx != ctx)
+    goto out;
+
   if (req->result != 0) {
     if (ctx->busy_polling != req->result) {
       ctx->poll_cb(ctx->parent_handle,
@@ -220,7 +224,9 @@ static void poll_cb(uv_fs_t* req) {
 out:
   uv_fs_req_cleanup(req);
 
-  if (!uv_is_active((uv_handle_t*)handle) || uv__is_closing(handle)) {
+  if (!uv_is_active((uv_handle_t*)handle) ||
+      uv__is_closing(handle) ||
+      handle->poll_ctx != ctx) {
     uv_close((uv_handle_t*)&ctx->timer_handle, timer_close_cb);
     return;
   }
